@@ -64,7 +64,7 @@ def _install_contract(mon):
 
 
 def generate(rng, tier, shard, nshards, mon):
-    n = (900 if tier == "quick" else 14000) // nshards
+    n = (2400 if tier == "quick" else 20000) // nshards
     lo, hi = (10, 30) if tier == "quick" else (10, 100)
     for _ in range(n):
         r = rng.random()
